@@ -136,3 +136,165 @@ Proof.
 Qed.
 
 End Chain.
+
+(* ================================================================ what the rounds preserve by themselves === *)
+From ASTS Require Import KeepsSet.
+
+Definition all_claimed (s : sset) (pods : list pod) : Prop :=
+  forall p, In p pods -> owner_uid_is s (p_owner p) = true /\ p_match p = true /\ isMemberOf s p = true.
+
+Lemma all_claimed_quiet s pods : all_claimed s pods ->
+  forallb (claim_quiet s) pods = true /\ claim_value s pods = pods.
+Proof.
+  intros H. split.
+  - apply forallb_forall. intros p Hp. destruct (H p Hp) as (A & B & C). unfold claim_quiet.
+    destruct (p_owner p) as [o|] eqn:E; [|cbn in A; discriminate]. rewrite A, B, C. reflexivity.
+  - unfold claim_value. induction pods as [|x t IH]; cbn [filter]; [reflexivity|].
+    destruct (H x (or_introl eq_refl)) as (A & B & C). rewrite A, B, C. cbn [andb]. f_equal. apply IH.
+    intros p Hp. apply H. right. exact Hp.
+Qed.
+
+Lemma fixpod_owner s p : p_owner (fixpod s p) = p_owner p /\ p_match (fixpod s p) = p_match p.
+Proof.
+  unfold fixpod. destruct (identityMatches s p);
+    match goal with |- context [storageMatches s ?x] => destruct (storageMatches s x) end; split; reflexivity.
+Qed.
+
+Section Preserve.
+Variable hashes : list ((Z * Z) * string).
+Variable s0 : sset.
+Variable upd : rinfo.
+Variables (cnt r : Z) (slots : list Z).
+Hypothesis Hcnt : 0 <= cnt <= max_i32 + 1.
+Hypothesis Hdel : s_deleting s0 = false.
+Hypothesis Hclaims : NoDup (s_claims s0).
+Hypothesis Hroll : s_rolling s0 <> None.
+Hypothesis Hpause : get_paused (s_pause s0) = false.
+Hypothesis Hsel : s_selector s0 = SelOk.
+Hypothesis Hrep : s_replicas s0 = Some r.
+Hypothesis Hext : extend r (get_slots (s_slots s0)) = (cnt, slots).
+
+Lemma all_claimed_round cur pods pods' :
+  wf s0 cnt slots pods -> all_claimed s0 pods ->
+  same_members pods' (round s0 upd cnt slots cur pods) -> all_claimed s0 pods'.
+Proof.
+  intros W Hc Hm q Hq. apply Hm in Hq.
+  pose proof (Huc0 s0 Hroll) as Huc.
+  assert (Hmem : (exists p, In p pods /\ deleted (plan_acts s0 cur upd cnt slots pods) p = false
+                           /\ q = (if updated (plan_acts s0 cur upd cnt slots pods) p then fixpod s0 p else p))
+               \/ (exists i, in_range cnt slots i = true /\ q = ready_of (new_versioned_pod s0 cur upd i)
+                             /\ In (ACreate (new_versioned_pod s0 cur upd i)) (plan_acts s0 cur upd cnt slots pods)
+                             /\ (at_ord i pods = None \/ exists p0, In p0 pods /\ getOrdinal p0 = i
+                                                          /\ In (ADelete p0) (plan_acts s0 cur upd cnt slots pods)))).
+  { eapply round_members; eassumption. }
+  destruct Hmem as [(p & Hp & _ & ->)|(i & R & -> & _)].
+  - destruct (Hc p Hp) as (A & B & C).
+    destruct (updated (plan_acts s0 cur upd cnt slots pods) p); [|tauto].
+    destruct (fixpod_owner s0 p) as [E1 E2]. rewrite E1, E2. split; [exact A|]. split; [exact B|].
+    unfold isMemberOf. rewrite (fixpod_name s0 p (wf_name _ _ _ _ W p Hp)). exact C.
+  - assert (Hi : 0 <= i <= max_i32) by (apply in_range_bounds in R; lia).
+    unfold new_versioned_pod. destruct (use_current s0 i);
+      match goal with |- context [new_pod s0 i ?rn ?tm] =>
+        destruct (new_pod_identity s0 i rn tm Hi Hclaims) as (_ & _ & _ & N4 & _ & _ & N7 & _) end;
+      (split; [cbn [ready_of set_ready p_owner]; rewrite N4; cbn [owner_uid_is me o_uid]; apply String.eqb_refl|]);
+      (split; [reflexivity | exact N7]).
+Qed.
+
+Lemma kubelet_set w n ev : w_set (kubelet w n ev) = w_set w /\ w_claims (kubelet w n ev) = w_claims w.
+Proof.
+  unfold kubelet. destruct (find_pod n (w_pods w)) as [p|]; [|split; reflexivity].
+  destruct ev; cbn; try (split; reflexivity).
+  - destruct (p_term p); split; reflexivity.
+  - destruct (p_term p || isFailed p || isSucceeded p); split; reflexivity.
+Qed.
+Lemma kubelet_fold_set ev : forall names w,
+  w_set (fold_left (fun a m => kubelet a m ev) names w) = w_set w
+  /\ w_claims (fold_left (fun a m => kubelet a m ev) names w) = w_claims w.
+Proof.
+  induction names as [|m t IH]; intros w; cbn [fold_left]; [split; reflexivity|].
+  destruct (IH (kubelet w m ev)) as [A B]. destruct (kubelet_set w m ev) as [C D]. rewrite A, B, C, D. split; reflexivity.
+Qed.
+
+(* a round of the full model keeps the spec of the stored set and every claim *)
+Lemma env_round_set w st rv : w_set w = Some (set_status s0 st rv) ->
+  exists st' rv', w_set (env_round hashes w) = Some (set_status s0 st' rv').
+Proof.
+  intros Hs. unfold env_round. cbn [hrun hstep fst hw_api hw_cache].
+  destruct (reconcile hashes w _ []) as [[o lg] w1] eqn:Er. cbn [fst hw_api].
+  destruct (kubelet_fold_set KSettle (map p_name (w_pods w1)) (fold_left (fun a m => kubelet a m KGone) (map p_name (w_pods w1)) w1)) as [A _].
+  destruct (kubelet_fold_set KGone (map p_name (w_pods w1)) w1) as [B _]. rewrite A, B.
+  pose proof (reconcile_keeps_spec _ _ _ _ _ _ _ Er) as Hk. rewrite Hs in Hk.
+  destruct (w_set w1) as [s1|]; [|discriminate]. cbn [spec_of option_map] in Hk. inversion Hk as [Hk'].
+  exists (s_status s1), (s_rv s1). f_equal. destruct s1, s0. cbn in *. inversion Hk'. subst. reflexivity.
+Qed.
+Lemma env_round_claims w : incl (w_claims w) (w_claims (env_round hashes w)).
+Proof.
+  unfold env_round. cbn [hrun hstep fst hw_api hw_cache].
+  destruct (reconcile hashes w _ []) as [[o lg] w1] eqn:Er. cbn [fst hw_api].
+  destruct (kubelet_fold_set KSettle (map p_name (w_pods w1)) (fold_left (fun a m => kubelet a m KGone) (map p_name (w_pods w1)) w1)) as [_ A].
+  destruct (kubelet_fold_set KGone (map p_name (w_pods w1)) w1) as [_ B]. rewrite A, B.
+  apply (reconcile_never_removes_a_claim _ _ _ _ _ _ _ Er).
+Qed.
+
+(* the part of regularity that is about the revision phase: nothing to adopt, and the update revision is in
+   place, newest, and the one the rounds work towards *)
+Definition rev_quiet (w : world) (cur : rinfo) : Prop :=
+  forall s, w_set w = Some s ->
+    nothing_to_adopt w s = true
+    /\ exists rcur rupd coll, gsr_value hashes s (sort_revs (lrevs w s)) = Some (rcur, rupd, coll)
+                              /\ cur = rinfo_of rcur /\ upd = rinfo_of rupd.
+
+Variable Wd : nat -> world.
+Variable curs : nat -> rinfo.
+Hypothesis Hstep : forall k, Wd (S k) = env_round hashes (Wd k).
+Hypothesis Hrev : forall k, rev_quiet (Wd k) (curs k).
+Hypothesis Hset0 : exists st rv, w_set (Wd O) = Some (set_status s0 st rv).
+Hypothesis W0 : wf s0 cnt slots (w_pods (Wd O)).
+Hypothesis N0 : NoDup (w_pods (Wd O)).
+Hypothesis C0 : all_claimed s0 (w_pods (Wd O)).
+Hypothesis K0 : forall j, in_range cnt slots j = true -> claims_cached s0 (Wd O) j.
+
+Definition inv (k : nat) : Prop :=
+  (exists st rv, w_set (Wd k) = Some (set_status s0 st rv))
+  /\ wf s0 cnt slots (w_pods (Wd k)) /\ NoDup (w_pods (Wd k)) /\ all_claimed s0 (w_pods (Wd k))
+  /\ (forall j, in_range cnt slots j = true -> claims_cached s0 (Wd k) j).
+
+Lemma inv_regular k : inv k -> regular hashes s0 upd cnt slots (Wd k) (curs k).
+Proof.
+  intros ((st & rv & Hs) & Wk & Nk & Ck & Kk).
+  destruct (Hrev k _ Hs) as (Ha & rcur & rupd & coll & Hg & Hc & Hu).
+  destruct (all_claimed_quiet (set_status s0 st rv) _ Ck) as [Q1 Q2].
+  exists st, rv, rcur, rupd, coll. cbv zeta. repeat split; try assumption.
+Qed.
+
+Lemma inv_all : forall k, inv k.
+Proof.
+  induction k as [|k IH].
+  - split; [exact Hset0|]. split; [exact W0|]. split; [exact N0|]. split; [exact C0 | exact K0].
+  - pose proof (inv_regular k IH) as Rk. destruct IH as ((st & rv & Hs) & Wk & Nk & Ck & Kk).
+    destruct Rk as (st1 & rv1 & rcur & rupd & coll & H1 & H2 & H3 & H4 & H5 & H6 & H7 & H8). cbv zeta in *.
+    set (s := set_status s0 st1 rv1) in *.
+    assert (Hucs : forall i, use_current s i = true -> i < umin_of s).
+    { intros i Hi. unfold s in Hi. rewrite (use_current_status s0 st1 rv1 Hroll) in Hi. apply (Huc0 s0 Hroll). exact Hi. }
+    pose proof (lift_round s upd cnt slots Hcnt Hdel Hclaims Hucs (curs k) hashes (Wd k) rcur rupd coll r
+                  H1 Hpause Hsel H2 H3 H4 H5 H6 H7 Hrep Hext (proj1 (wf_status s0 st1 rv1 cnt slots _) Wk) Nk H8) as [L1 L2].
+    unfold s in L2. rewrite (round_status s0 st1 rv1 Hroll) in L2. rewrite <- Hstep in L1, L2.
+    split; [rewrite Hstep; apply (env_round_set _ st rv Hs)|].
+    split; [apply (wf_members s0 cnt slots (round s0 upd cnt slots (curs k) (w_pods (Wd k)))); [apply (round_wf s0 upd cnt slots Hcnt Hclaims (Huc0 s0 Hroll)); exact Wk | exact L2]|].
+    split; [exact L1|]. split; [apply (all_claimed_round (curs k) (w_pods (Wd k))); assumption|].
+    intros j R t Ht. specialize (Kk j R t Ht). unfold smemb in *. apply existsb_exists in Kk. destruct Kk as (x & Hx & Ex).
+    apply existsb_exists. exists x. split; [|exact Ex]. rewrite Hstep. apply env_round_claims. exact Hx.
+Qed.
+
+(* C02 over the full model, with the per-round hypothesis reduced to the revision phase *)
+Theorem full_model_converges_rev_quiet :
+  exists k, Z.of_nat k <= mu s0 upd cnt slots (w_pods (Wd O))
+    /\ forall m, (k <= m)%nat ->
+         pods_converged s0 upd cnt slots (w_pods (Wd m)) /\ same_members (w_pods (Wd m)) (w_pods (Wd k))
+         /\ forall cur, plan_acts s0 cur upd cnt slots (w_pods (Wd m)) = [].
+Proof.
+  apply (full_model_rounds_converge hashes s0 upd cnt r slots Hcnt Hdel Hclaims Hroll Hpause Hsel Hrep Hext Wd curs Hstep);
+    [intros k; apply inv_regular; apply inv_all | exact W0 | exact N0].
+Qed.
+
+End Preserve.
